@@ -37,11 +37,16 @@ type Dialer struct {
 	Dials int
 	Errs  map[int]error // dial #i fails
 	made  []network.Conn
+	// OnDial, if set, runs at every dial (in the goroutine of the exchange, after the client has reset its response)
+	OnDial func()
 }
 
 var ErrNoScript = errors.New("netsim: dial beyond the script")
 
 func (d *Dialer) DialConnection(n, address string, timeout time.Duration, tlsConfig *tls.Config) (network.Conn, error) {
+	if f := d.OnDial; f != nil {
+		f()
+	}
 	d.mu.Lock()
 	defer d.mu.Unlock()
 	i := d.Dials
